@@ -180,6 +180,10 @@ func emitCut(id string, content []byte, cut int, signal string, ends string, kin
 		}
 	}
 	c := runScan(content[:cut], sched, final, false)
+	// the same cut input with path guessing on (nothing exists on disk): it must not crash either
+	if !strings.HasPrefix(c.snap, "PANIC") && guessCrashes(content[:cut]) {
+		c.snap = "PANIC:with GuessPaths"
+	}
 	emit("cut", id, hexs(content), fmt.Sprint(cut), signal, ends, kind,
 		full.snap, hexs(full.fwd), full.err, c.snap, hexs(c.fwd), hexs(c.suffix), hexs(c.unread), c.err)
 }
@@ -244,11 +248,28 @@ func raceEnds(pre string, d dRace) (string, []int) {
 	return txt, ends
 }
 
+func guessCrashes(content []byte) (crashed bool) {
+	defer func() {
+		if recover() != nil {
+			crashed = true
+		}
+	}()
+	opts := &stack.Opts{GuessPaths: true, LocalGOROOT: "/nonexistent/goroot", LocalGOPATHs: []string{"/nonexistent/gopath"}}
+	rd := &scriptedReader{rest: append([]byte{}, content...), final: finalOf("eof"), w: &recWriter{}}
+	_, _, _ = stack.ScanSnapshot(rd, rd.w, opts)
+	return false
+}
+
 func opCut(r *rand.Rand, n int, tier string) {
 	g := dgen{r}
 	// n = number of base inputs; every byte offset x 3 signals of each (quick: sampled offsets)
 	for i := 0; i < n; i++ {
 		pre := genJunk(r, r.Intn(3), true, false)
+		longLine := i%4 == 3
+		if longLine {
+			// a junk line longer than the read buffer first: cuts at whole multiples of the buffer size inside it
+			pre = variedText(r, 20000+r.Intn(20000)) + "\n" + pre
+		}
 		var txt, kind string
 		var ends []int
 		if r.Intn(3) == 0 {
@@ -278,6 +299,14 @@ func opCut(r *rand.Rand, n int, tier string) {
 			step = len(content)/400 + 1
 		}
 		off := r.Intn(step)
+		if longLine {
+			for _, cut := range []int{16383, 16384, 16385, 32767, 32768, 32769} {
+				if cut <= len(content) {
+					sg := []string{"eof", "fail", "faild", "chunkd", "chunke"}[r.Intn(5)]
+					emitCut(fmt.Sprintf("cut-%d-%d-%s", i, cut, sg), content, cut, sg, strings.Join(es, ","), kind)
+				}
+			}
+		}
 		for cut := off; cut <= len(content); cut += step {
 			sig := []string{"eof", "fail", "faild", "zeros", "failz", "chunkd", "chunke"}[r.Intn(7)]
 			if tier == "thorough" {
